@@ -12,6 +12,11 @@ R5 name/function agreements: lower/upper/capitalize, url_(un)quote(_plus),
 import ast
 
 from ..core import AnalysisError
+from ..flow import BaseState
+from ..flow import Domain
+from ..flow import Interp
+from ..flow import NORMAL
+from ..flow import Outcome
 from ..core import RuleResult
 from ..core import norm
 from ..model import own_nodes
@@ -21,25 +26,146 @@ SWITCHES = {'url': 'not a value modifier: selects absolute_url() of the '
 
 
 def table_entries(model):
+    """(module, node, [function name per entry]) of DT_Var.modifiers, in
+    table order, however the table is spelled (tables.py); the option name
+    of every entry is recorded in m._dt_pair_names."""
+    from .. import tables
     m = model.module('DT_Var')
     vals = m.globals.get('modifiers')
     if not vals:
         raise AnalysisError('DT_Var.modifiers not found')
-    for v in vals:
-        if isinstance(v, (ast.Tuple, ast.List)) and v.elts and all(
-                isinstance(e, ast.Name) for e in v.elts):
-            return m, v, [e.id for e in v.elts]
-    # explicit (name, function) pairs
-    for v in vals:
-        if isinstance(v, (ast.Tuple, ast.List)) and v.elts and all(
-                isinstance(e, ast.Tuple) and len(e.elts) == 2 and
-                isinstance(e.elts[0], ast.Constant) and
-                isinstance(e.elts[1], ast.Name) for e in v.elts):
-            m._dt_pair_names = {e.elts[1].id: e.elts[0].value
-                                for e in v.elts}
-            return m, v, [e.elts[1].id for e in v.elts]
-    raise AnalysisError('DT_Var.modifiers: literal table of functions not '
-                        'found')
+    ents = tables.func_entries(model, m, 'modifiers')
+    if not ents:
+        raise AnalysisError('DT_Var.modifiers: literal table of functions '
+                            'not found')
+    names, pairs = [], {}
+    for key, expr, res in ents:
+        fn = norm(expr)
+        names.append(fn)
+        if key is not None:
+            # the option name an entry answers to
+            real = res[1].name if res and res[0] == 'func' else fn
+            pairs[fn] = key if key != real else fn
+    m._dt_pair_names = pairs
+    return m, vals[-1], names
+
+
+class _PartState(BaseState):
+    def __init__(self, env=None):
+        self.env = env or {}
+
+    def key(self):
+        return tuple(sorted(self.env.items()))
+
+    def copy(self):
+        n = _PartState(dict(self.env))
+        n.trace = self.trace
+        return n
+
+
+class _PartDomain(Domain):
+    """Which part of the value (split at the first '.') reaches the
+    digit-grouping regular expression: tags WHOLE (the value, or its str),
+    PARTS (its split / partition at '.'), INT (the part before the first
+    '.'), FRAC (anything after it), '?'."""
+
+    def __init__(self, model, fi):
+        self.model = model
+        self.fi = fi
+        self.fed = set()
+
+    def ev(self, e, st):
+        if isinstance(e, ast.Name):
+            return st.env.get(e.id, '?')
+        if isinstance(e, ast.NamedExpr):
+            return self.ev(e.value, st)
+        if isinstance(e, ast.Call):
+            f = e.func
+            if isinstance(f, ast.Name) and f.id in ('str', 'repr') and \
+                    len(e.args) == 1:
+                return self.ev(e.args[0], st)
+            if isinstance(f, ast.Attribute) and f.attr in (
+                    'split', 'partition') and e.args and isinstance(
+                        e.args[0], ast.Constant) and e.args[0].value == '.':
+                if self.ev(f.value, st) == 'WHOLE':
+                    return 'PARTS'
+                return '?'
+            return '?'
+        if isinstance(e, ast.Subscript):
+            b = self.ev(e.value, st)
+            if b == 'PARTS':
+                if isinstance(e.slice, ast.Constant) and e.slice.value == 0:
+                    return 'INT'
+                return 'FRAC'
+            if b in ('INT', 'FRAC', 'WHOLE') and isinstance(
+                    e.slice, ast.Slice):
+                return b
+            return '?'
+        if isinstance(e, ast.BinOp) and isinstance(e.op, ast.Add):
+            tags = {self.ev(x, st) for x in (e.left, e.right)
+                    if not isinstance(x, ast.Constant)}
+            if len(tags) == 1:
+                return tags.pop()
+            return '?' if tags else '?'
+        if isinstance(e, ast.IfExp):
+            a, b = self.ev(e.body, st), self.ev(e.orelse, st)
+            return a if a == b else '?'
+        return '?'
+
+    def note(self, node, st):
+        for c in ast.walk(node):
+            if isinstance(c, ast.Call) and c.args:
+                rm = self.model.regex_method_of(c.func, self.fi)
+                if rm is not None and rm[0] in ('search', 'match', 'sub',
+                                                'subn', 'fullmatch'):
+                    arg = c.args[-1] if rm[0] in ('sub', 'subn') \
+                        else c.args[0]
+                    self.fed.add((norm(arg), self.ev(arg, st)))
+
+    def branch(self, test, st):
+        self.note(test, st)
+        return [(True, st), (False, st)]
+
+    def simple(self, stmt, st):
+        self.note(stmt, st)
+        ns = st
+        if isinstance(stmt, ast.Assign):
+            ns = st.copy()
+            for t in stmt.targets:
+                self.bind(t, stmt.value, st, ns)
+        elif isinstance(stmt, ast.Delete):
+            # `del vl[0]`: the list no longer starts with the integer part
+            ns = st.copy()
+            for t in stmt.targets:
+                if isinstance(t, ast.Subscript) and isinstance(
+                        t.value, ast.Name) and \
+                        ns.env.get(t.value.id) == 'PARTS':
+                    ns.env[t.value.id] = 'FRAC'
+        return [Outcome(NORMAL, ns)]
+
+    def bind(self, t, value, st, ns):
+        if isinstance(t, ast.Name):
+            ns.env[t.id] = self.ev(value, st)
+        elif isinstance(t, (ast.Tuple, ast.List)):
+            if isinstance(value, (ast.Tuple, ast.List)) and \
+                    len(value.elts) == len(t.elts):
+                for a, b in zip(t.elts, value.elts):
+                    self.bind(a, b, st, ns)
+            else:
+                tag = self.ev(value, st)
+                for i, a in enumerate(t.elts):
+                    if isinstance(a, ast.Starred):
+                        a = a.value
+                    if isinstance(a, ast.Name):
+                        ns.env[a.id] = ('INT' if i == 0 else 'FRAC') \
+                            if tag == 'PARTS' else '?'
+
+    def for_target(self, node, st):
+        ns = st.copy()
+        for x in ast.walk(node.target):
+            if isinstance(x, ast.Name):
+                ns.env[x.id] = '?'
+        return ns
 
 
 def rule_table(model):
@@ -280,80 +406,36 @@ def rule_agreements(model):
                   'single quotes: the value can terminate a SQL string '
                   'literal', node=sq.node, ctx=sq)
     # special formats: alias keys map to the function of that name
-    vals = m.globals.get('special_formats')
-    if not vals or not isinstance(vals[0], ast.Dict):
+    from .. import tables
+    ents = tables.func_entries(model, m, 'special_formats')
+    if not ents:
         raise AnalysisError('DT_Var.special_formats not found')
-    d = vals[0]
-    for k, v in zip(d.keys, d.values):
-        if not isinstance(k, ast.Constant):
+    for key, expr, res in ents:
+        if not isinstance(key, str):
             continue
-        fn = k.value.replace('-', '_')
-        r.instance('DT_Var:special_formats', f'{k.value!r}: {norm(v)}')
+        fn = key.replace('-', '_')
+        r.instance('DT_Var:special_formats', f'{key!r}: {norm(expr)}')
         if fn in m.funcs or model.resolve_global(m, fn):
-            if norm(v) != fn:
+            want = model.resolve_global(m, fn)
+            same = res is not None and want is not None and \
+                res[0] == want[0] and res[1] is want[1]
+            if not same and norm(expr) != fn:
                 r.finding('DT_Var:special_formats',
-                          f'{k.value!r}: {norm(v)}', f'format {k.value!r} '
-                          f'should be the function {fn}', node=d, ctx=m)
+                          f'{key!r}: {norm(expr)}', f'format {key!r} '
+                          f'should be the function {fn}',
+                          node=m.globals['special_formats'][-1], ctx=m)
     # thousands_commas groups the integer part only
     tc = m.funcs.get('thousands_commas')
     if tc is None:
         raise AnalysisError('DT_Var.thousands_commas not found')
-    rxs = set()
-
-    def is_rx(v):
-        return v is not None and 're.compile' in norm(v)
-    for p_ in tc.params():
-        d = model.param_default(tc, p_)
-        if is_rx(d) or (isinstance(d, ast.Name) and any(
-                is_rx(g) for g in m.globals.get(d.id, []))):
-            rxs.add(p_)
-    for gname, gvals in m.globals.items():
-        if any(is_rx(g) for g in gvals):
-            rxs.add(gname)
-    fed = [n.args[0] for n in own_nodes(tc.node) if isinstance(n, ast.Call)
-           and isinstance(n.func, ast.Name) and n.func.id in rxs and n.args]
-    fed += [n.args[0] for n in own_nodes(tc.node) if isinstance(n, ast.Call)
-            and isinstance(n.func, ast.Attribute)
-            and n.func.attr in ('search', 'match')
-            and isinstance(n.func.value, ast.Name)
-            and n.func.value.id in rxs and n.args]
-    ok = False
-
-    def from_dot_split(sx):
-        return isinstance(sx, ast.Call) and \
-            isinstance(sx.func, ast.Attribute) and \
-            sx.func.attr in ('split', 'partition') and sx.args and \
-            isinstance(sx.args[0], ast.Constant) and sx.args[0].value == '.'
-    for a in fed:
-        if isinstance(a, ast.Name):
-            for d in model.local_defs(tc, a.id):
-                # whole, dot, fraction = str(v).partition('.'): the first
-                # target of the unpacking is the part before the first '.'
-                if isinstance(d, tuple) and d[0] == 'unpack' and \
-                        from_dot_split(d[1]):
-                    for st in own_nodes(tc.node):
-                        if isinstance(st, ast.Assign) and \
-                                st.value is d[1] and \
-                                isinstance(st.targets[0], ast.Tuple) and \
-                                norm(st.targets[0].elts[0]) == a.id:
-                            ok = True
-                # re-assignments of the grouped variable from itself
-                if isinstance(d, ast.Subscript) and \
-                        isinstance(d.slice, ast.Constant) and \
-                        d.slice.value == 0:
-                    base = d.value
-                    srcs = [base] if not isinstance(base, ast.Name) else [
-                        x for x in model.local_defs(tc, base.id)
-                        if not isinstance(x, (str, tuple))]
-                    for sx in srcs:
-                        if isinstance(sx, ast.Call) and \
-                                isinstance(sx.func, ast.Attribute) and \
-                                sx.func.attr in ('split', 'partition') and \
-                                sx.args and isinstance(sx.args[0],
-                                                       ast.Constant) and \
-                                sx.args[0].value == '.':
-                            ok = True
-    r.instance(tc.where, f'grouping regex fed with {[norm(a) for a in fed]}',
+    dom = _PartDomain(model, tc)
+    it = Interp(dom, 20000)
+    params = tc.params()
+    it.run(tc.node, _PartState({params[0]: 'WHOLE'} if params else {}))
+    fed = sorted(dom.fed, key=str)
+    ok = bool(fed) and all(tag == 'INT' for _, tag in fed)
+    r.instance(tc.where, 'grouping regex fed with '
+               f'{[(t, g) for t, g in fed]}',
                'integer part' if ok else 'WHOLE VALUE')
     if not fed:
         raise AnalysisError('thousands_commas: grouping regex use not found')
